@@ -119,7 +119,7 @@ def stacks(tier):
 
 
 def shards(tier):
-    return [("stacks", p, d) for p in range(len(POSITIONS)) for d in range(len(DOCS))] + [("files", 0), ("illegal", 0), ("protocol", 0), ("reuse", 0)] + [("bigfile", e) for e in BIG_ENCODINGS]
+    return [("stacks", p, d) for p in range(len(POSITIONS)) for d in range(len(DOCS))] + [("files", 0), ("illegal", 0), ("protocol", 0), ("reuse", 0), ("hooks", 0), ("libresults", 0)] + [("bigfile", e) for e in BIG_ENCODINGS]
 
 
 def fresh(idxs):
@@ -542,6 +542,143 @@ def _rebuild(kind, result):
     return out
 
 
+HOOKS = {"entry": "transform_entry", "string": "transform_string", "preamble": "transform_preamble", "explicit": "transform_explicit_comment", "implicit": "transform_implicit_comment"}
+
+
+def make_probe(name, kinds, base=BlockMiddleware, tag=None):
+    """A user block middleware class called `name` that overrides exactly the hooks of `kinds` (each notes its tag on the
+    block it is given); `base` may be a shipped middleware or another probe (hooks and metadata key are inherited)."""
+    tag = tag or name + ":" + "+".join(sorted(kinds))
+
+    def mk(kind):
+        def hook(self, block, library, *a, **k):
+            block.parser_metadata.setdefault("hooks", []).append(tag)
+            inherited = getattr(super(cls_box[0], self), HOOKS[kind])
+            return inherited(block, library) if base is not BlockMiddleware else block
+
+        return hook
+
+    cls_box = [None]
+    body = {HOOKS[k]: mk(k) for k in kinds}
+    body["__init__"] = (lambda self: base.__init__(self)) if hasattr(base, "probe_tag") else (lambda self: base.__init__(self, allow_inplace_modification=True))
+    body["probe_tag"] = tag
+    own = dict.fromkeys(kinds, tag)
+    inherited_tags = dict(getattr(base, "probe_tags", {}))
+    body["probe_tags"] = {**inherited_tags, **own}
+    body["probe_tag_for"] = lambda self, kind: type(self).probe_tags.get(kind)
+    body["probe_kinds"] = frozenset(kinds) | getattr(base, "probe_kinds", frozenset())
+    cls_box[0] = type(name, (base,), body)
+    return cls_box[0]
+
+
+def hook_probes():
+    e = make_probe("Probe", ["entry"])
+    s_ = make_probe("Probe", ["string"])  # a different class of the same name (two modules, a factory)
+    allk = make_probe("Probe", list(HOOKS))
+    pre = make_probe("AlsoPreambles", ["preamble"], base=mw.RemoveEnclosingMiddleware)
+    sub = make_probe("EntryAndImplicit", ["implicit"], base=e)
+    com = make_probe("Comments", ["explicit", "implicit"])
+    return [("Probe[entry]", e), ("Probe[string]", s_), ("Probe[all]", allk), ("RemoveEnclosing+preamble", pre), ("Probe[entry]+implicit", sub), ("Comments", com)]
+
+
+def check_hooks(acc, tier):
+    """Which hooks run is decided by the class of each instance alone: in every sequence of user block middlewares
+    (same-named classes with different hooks, subclasses of each other and of shipped middlewares), through every
+    route, each block is handed to exactly the overridden hooks of its kind, once per middleware, in stack order."""
+    probes = hook_probes()
+    maxn = 2 if tier == "quick" else 3
+    kind_of = {Entry: "entry", String: "string", Preamble: "preamble", ExplicitComment: "explicit", ImplicitComment: "implicit"}
+    for n in range(1, maxn + 1):
+        for idxs in itertools.product(range(len(probes)), repeat=n):
+            for route in ("fold", "parse_stack", "append_middleware", "prepend_middleware", "unparse_stack"):
+                case = {"hooks": [probes[i][0] for i in idxs], "route": route}
+                acc.trace()
+                acc.case(nontrivial_key=("hooks", idxs, route))
+                ms = [probes[i][1]() for i in idxs]
+                try:
+                    if route == "fold":
+                        lib = fold(ms, Splitter(PROTO_DOC).split())
+                    elif route == "parse_stack":
+                        lib = bibtexparser.parse_string(PROTO_DOC, parse_stack=ms)
+                    elif route == "append_middleware":
+                        lib = bibtexparser.parse_string(PROTO_DOC, append_middleware=ms)
+                    else:
+                        lib = bibtexparser.parse_string(PROTO_DOC)
+                        bibtexparser.write_string(lib)  # (a plain call first: whatever it leaves behind must not matter)
+                        if route == "prepend_middleware":
+                            bibtexparser.write_string(lib, prepend_middleware=ms)
+                        else:
+                            bibtexparser.write_string(lib, unparse_stack=ms)
+                except Exception as ex:
+                    acc.exception(ex, case, "stack of user block middlewares")
+                    continue
+                got = [(kind_of.get(type(b), type(b).__name__), b.parser_metadata.get("hooks", [])) for b in lib.blocks]
+                exp = [(k, [m.probe_tag_for(k) for m in ms if m.probe_tag_for(k)]) for k, _ in got]
+                acc.step(("hooks", idxs), route, repr(got))
+                if got != exp:
+                    acc.violation(
+                        {"oracle": "exactly_the_overridden_hooks_run", "route": route},
+                        {"case": case, "observed": got, "expected": exp},
+                        size=n,
+                    )
+
+
+class LenLibrary(Library):
+    """A user's Library subclass that has a length (so an empty one is falsy)."""
+
+    def __len__(self):
+        return len(self.blocks)
+
+
+class LibResult(LibraryMiddleware):
+    def __init__(self, what):
+        super().__init__(allow_inplace_modification=True)
+        self.what = what
+
+    def transform(self, library):
+        if self.what == "empty LenLibrary":
+            return LenLibrary()
+        if self.what == "LenLibrary":
+            return LenLibrary(blocks=list(library.blocks)[:1])
+        if self.what == "empty Library":
+            return Library()
+        return library
+
+
+def check_library_results(acc):
+    """A library middleware's result IS the library from there on, whatever its truth value: an empty Library, an
+    instance of a Library subclass with a length (empty -> falsy), then a probe and the writer / the caller see it."""
+    for what in ("empty LenLibrary", "LenLibrary", "empty Library", "same"):
+        for route in ("parse_stack", "append_middleware", "prepend_middleware", "unparse_stack"):
+            for after in (False, True):
+                case = {"library_result": what, "route": route, "probe_after": after}
+                acc.trace(2)
+                acc.case(nontrivial_key=("libresult", what, route, after))
+                ms = lambda: [LibResult(what)] + ([Tag("<t>")] if after else [])
+                try:
+                    if route == "parse_stack":
+                        got = canon(bibtexparser.parse_string(PROTO_DOC, parse_stack=ms()))
+                        exp = canon(fold(ms(), Splitter(PROTO_DOC).split()))
+                    elif route == "append_middleware":
+                        got = canon(bibtexparser.parse_string(PROTO_DOC, append_middleware=ms()))
+                        exp = canon(fold(default_parse() + ms(), Splitter(PROTO_DOC).split()))
+                    elif route == "prepend_middleware":
+                        got = bibtexparser.write_string(bibtexparser.parse_string(PROTO_DOC), prepend_middleware=ms())
+                        exp = write(fold(ms() + default_unparse(), bibtexparser.parse_string(PROTO_DOC)), None)
+                    else:
+                        got = bibtexparser.write_string(bibtexparser.parse_string(PROTO_DOC), unparse_stack=ms())
+                        exp = write(fold(ms(), bibtexparser.parse_string(PROTO_DOC)), None)
+                except Exception as ex:
+                    acc.exception(ex, case, "library middleware returning " + what)
+                    continue
+                acc.step(("libresult", what, after), route, repr(got)[:80])
+                if got != exp:
+                    acc.violation(
+                        {"oracle": "entry_point_equals_folded_stack", "kind": "library-level result", "result": what, "position": route},
+                        {"case": case, "observed": repr(got)[:300], "expected": repr(exp)[:300]},
+                    )
+
+
 BIG_ENCODINGS = ["utf-8", "gbk", "utf-16", "latin-1"]
 
 
@@ -628,6 +765,10 @@ def run_shard(shard, tier, acc):
             check_files(acc, tmpdir)
         elif shard[0] == "illegal":
             check_illegal(acc, tmpdir)
+        elif shard[0] == "hooks":
+            check_hooks(acc, tier)
+        elif shard[0] == "libresults":
+            check_library_results(acc)
         else:
             check_protocol(acc)
 
@@ -638,6 +779,10 @@ def replay(case, acc):
             check_stack(POSITIONS.index(case["position"]), case["doc"], tuple(case["stack_idx"]), case["container"], acc, tmpdir)
         elif "protocol" in case:
             check_protocol(acc)
+        elif "hooks" in case:
+            check_hooks(acc, "quick" if len(case["hooks"]) <= 2 else "thorough")
+        elif "library_result" in case:
+            check_library_results(acc)
         elif "reuse" in case or "reuse_after_failure" in case:
             check_reuse(acc)
         elif "bigfile" in case:
